@@ -75,6 +75,160 @@ theorem lookupRes_fresh (s : Sys) (rid : RunId) : (lookupRes s rid 0).2 = s.cur 
     | nil => simp
     | cons a t => simp
 
+/-! ## evaluating the monad -/
+
+theorem pure_run {α : Type} (a : α) (env : Env) (st : OpSt) : (pure a : M α) env st = (.ok a, st) := rfl
+theorem throwA_run {α : Type} (a : Abort) (env : Env) (st : OpSt) : (throwA a : M α) env st = (.error a, st) := rfl
+
+/-- a fault-free, live `Store`: exactly one write -/
+theorem store_run_ok (cfg : Cfg) (r : Rec) (env : Env) (st : OpSt) (hc : st.cancelled = false)
+    (hf : env.faults.lookup st.callN = none) :
+    (store cfg r env st).1 = .ok () ∧ (store cfg r env st).2.sys = st.sys.write cfg r ∧ (store cfg r env st).2.outI = st.outI := by
+  simp [Engine.store, Engine.call, hc, hf]
+
+/-- any `Store`: nothing or exactly that write -/
+theorem store_run_any (cfg : Cfg) (r : Rec) (env : Env) (st : OpSt) :
+    ((store cfg r env st).2.sys = st.sys ∨ (store cfg r env st).2.sys = st.sys.write cfg r) ∧ (store cfg r env st).2.outI = st.outI := by
+  unfold Engine.store
+  rcases h : Engine.call "store" _ env st with ⟨r', st'⟩
+  cases r' with
+  | ok _ => have := call_ok h; simp only [] at this; exact ⟨Or.inr this.2.1, this.2.2.1⟩
+  | error _ => have := call_err h; simp only [] at this; exact ⟨this.1, this.2.1⟩
+
+/-! ## glue: a handler is its read followed by its guard function -/
+
+theorem stepHandle_run (cfg : Cfg) (p : Proc) (status : Status) (pa : Int) (e : Event)
+    (fn : Rec → M (Except Abort FnRes × Rec)) (env : Env) (st : OpSt) :
+    stepHandle cfg p status pa e fn env st =
+      match lookup e.runId env st with
+      | (.ok none, st') => (.ok (), st')
+      | (.ok (some record), st') => stepGate cfg p pa e record fn env st'
+      | (.error a, st') => (.error a, st') := by
+  unfold stepHandle
+  rw [bind_run]
+  rcases lookup e.runId env st with ⟨r, st'⟩
+  cases r with
+  | error a => rfl
+  | ok v => cases v <;> rfl
+
+theorem pollTimer_run (cfg : Cfg) (p : Proc) (status : Status) (t : Timer) (env : Env) (st : OpSt) :
+    pollTimer cfg p status t env st =
+      match lookup t.runId env st with
+      | (.ok none, st') => (.error (.err errNotFound), st')
+      | (.ok (some r), st') => pollGate cfg p status t r env st'
+      | (.error a, st') => (.error a, st') := by
+  unfold pollTimer
+  rw [bind_run]
+  rcases lookup t.runId env st with ⟨r, st'⟩
+  cases r with
+  | error a => rfl
+  | ok v => cases v <;> rfl
+
+theorem callbackOne_run (cfg : Cfg) (fid : Fid) (status : Status) (runner : Rec → M (Except Abort FnRes × Rec))
+    (env : Env) (st : OpSt) :
+    callbackOne cfg fid status runner env st =
+      match latest fid env st with
+      | (.ok none, st') => (.error (.err errNotFound), st')
+      | (.ok (some wr), st') => callbackGate cfg status wr runner env st'
+      | (.error a, st') => (.error a, st') := by
+  unfold callbackOne
+  rw [bind_run]
+  rcases latest fid env st with ⟨r, st'⟩
+  cases r with
+  | error a => rfl
+  | ok v => cases v <;> rfl
+
+/-! ## association lists -/
+
+theorem lookup_map_set {α β : Type} [BEq α] [LawfulBEq α] (l : List (α × β)) (k : α) (v : β)
+    (h : l.any (·.1 == k) = true) :
+    List.lookup k (l.map (fun p => if p.1 == k then (k, v) else p)) = some v := by
+  induction l with
+  | nil => simp at h
+  | cons c cs ih =>
+    simp only [List.map_cons]
+    cases hck : (c.1 == k) with
+    | true => simp [List.lookup]
+    | false =>
+      have hkc : (k == c.1) = false := by
+        cases hx : (k == c.1) with
+        | false => rfl
+        | true => rw [eq_of_beq hx] at hck; simp at hck
+      simp only [List.any_cons, hck, Bool.false_or] at h
+      simp only [Bool.false_eq_true, if_false]
+      rw [List.lookup]
+      simp only [hkc]
+      exact ih h
+
+theorem lookup_none_of_not_any {α β : Type} [BEq α] [LawfulBEq α] (l : List (α × β)) (k : α)
+    (h : ¬ l.any (·.1 == k) = true) : List.lookup k l = none := by
+  induction l with
+  | nil => rfl
+  | cons c cs ih =>
+    simp only [List.any_cons, Bool.or_eq_true, not_or] at h
+    have hkc : (k == c.1) = false := by
+      cases hx : (k == c.1) with
+      | false => rfl
+      | true => exact absurd (by rw [eq_of_beq hx]; exact beq_self_eq_true _) h.1
+    rw [List.lookup]; simp only [hkc]; exact ih h.2
+
+theorem lookup_assocSet_self {α β : Type} [BEq α] [LawfulBEq α] (l : List (α × β)) (k : α) (v : β) :
+    (assocSet l k v).lookup k = some v := by
+  unfold assocSet
+  split
+  · rename_i h; exact lookup_map_set l k v h
+  · rename_i h
+    rw [List.lookup_append, lookup_none_of_not_any l k h]
+    simp [List.lookup]
+
+theorem lookup_map_set_ne {α β : Type} [BEq α] [LawfulBEq α] (l : List (α × β)) (k k' : α) (v : β) (h : k' ≠ k) :
+    List.lookup k' (l.map (fun p => if p.1 == k then (k, v) else p)) = List.lookup k' l := by
+  have hkk : (k' == k) = false := beq_false_of_ne h
+  induction l with
+  | nil => rfl
+  | cons c cs ih =>
+    simp only [List.map_cons]
+    cases hc : (c.1 == k) with
+    | true =>
+      have hk : c.1 = k := eq_of_beq hc
+      simp only [if_true]
+      have e1 : List.lookup k' ((k, v) :: List.map (fun p => if p.1 == k then (k, v) else p) cs)
+          = List.lookup k' (List.map (fun p => if p.1 == k then (k, v) else p) cs) := by
+        rw [List.lookup]; simp only [hkk]
+      have e2 : List.lookup k' (c :: cs) = List.lookup k' cs := by
+        rw [List.lookup]; rw [hk]; simp only [hkk]
+      rw [e1, e2, ih]
+    | false =>
+      simp only [Bool.false_eq_true, if_false]
+      rw [List.lookup, List.lookup, ih]
+
+theorem lookup_assocSet_ne {α β : Type} [BEq α] [LawfulBEq α] (l : List (α × β)) (k k' : α) (v : β) (h : k' ≠ k) :
+    (assocSet l k v).lookup k' = l.lookup k' := by
+  have hkk : (k' == k) = false := beq_false_of_ne h
+  unfold assocSet
+  split
+  · exact lookup_map_set_ne l k k' v h
+  · rw [List.lookup_append]
+    simp [List.lookup, hkk]
+
+theorem count_setCount_ne (s : Sys) (k k' : Int × Proc × RunId) (v : Int) (h : k' ≠ k) : (s.setCount k v).count k' = s.count k' := by
+  simp [Sys.count, Sys.setCount, lookup_assocSet_ne _ _ _ _ h]
+
+theorem pstate_setPState_ne (s : Sys) (p p' : Proc) (x : PState) (h : p' ≠ p) : (s.setPState p x).pstate p' = s.pstate p' := by
+  simp [Sys.pstate, Sys.setPState, lookup_assocSet_ne _ _ _ _ h]
+
+theorem cursor_setCursor_ne (s : Sys) (p p' : Proc) (n : Nat) (h : p' ≠ p) : (s.setCursor p n).cursor p' = s.cursor p' := by
+  simp [Sys.cursor, Sys.setCursor, lookup_assocSet_ne _ _ _ _ h]
+
+theorem pstate_setPState (s : Sys) (p : Proc) (x : PState) : (s.setPState p x).pstate p = x := by
+  simp [Sys.pstate, Sys.setPState, lookup_assocSet_self]
+
+theorem cursor_setCursor (s : Sys) (p : Proc) (n : Nat) : (s.setCursor p n).cursor p = n := by
+  simp [Sys.cursor, Sys.setCursor, lookup_assocSet_self]
+
+theorem count_setCount (s : Sys) (k : Int × Proc × RunId) (v : Int) : (s.setCount k v).count k = v := by
+  simp [Sys.count, Sys.setCount, lookup_assocSet_self]
+
 /-! ## frames: what event handlers never touch -/
 
 /-- event handlers, the poller's work and API calls never move a cursor and never change where a process is parked -/
